@@ -154,6 +154,19 @@ pub fn c07(ctx: &Ctx) -> Report {
         s.cancel = true;
         s.cancel_rtx = true;
         runs.push(SliceRun { slice: s, depth: ctx.tier.pick(7, 10) });
+        // credential kinds: local credentials short-term / long-term x remote credentials unset /
+        // short-term / long-term, responses signed with each of those keys (a response signed with
+        // the agent's own credentials proves nothing about the peer)
+        let mut s = base_slice("credential kinds", "C07", tcp);
+        s.ids = 1;
+        s.max_live = 1;
+        s.max_sends = 2;
+        s.send = vec![(0, Seal::Sha1, 0), (0, Seal::Sha256, 0)];
+        s.poll_whens = vec![When::Wake];
+        s.resp = vec![(2, Auth::None, 0), (2, Auth::Sha1(0), 0), (2, Auth::Sha1(1), 0), (2, Auth::Sha1(3), 0), (2, Auth::Sha256(3), 0), (3, Auth::Sha256(1), 0)];
+        s.set_remote = vec![1, 3];
+        s.set_local = vec![0, 3];
+        runs.push(SliceRun { slice: s, depth: ctx.tier.pick(6, 8) });
     }
     let req = ["response delivered", "forged or unauthenticated response dropped, state unchanged (self-loop)", "genuine SHA-1 response delivered to an authenticated request", "genuine SHA-256 response delivered to an authenticated request", "genuine SHA-1+SHA-256 response delivered to an authenticated request", "timed out"];
     run_slices(ctx, runs, &req, "all histories up to the depth over {send with no / SHA-1 / SHA-256 / both integrity (also behind 18 other attributes), responses unsigned / SHA-1 under R1, R2, local key / SHA-256 under R1, R2 / both / one HMAC bit flipped x success, error x two sources, set remote credentials R1/R2/long-term at any point (unset, set, changed mid-transaction), set local credentials, poll now/wake/wake+1, configure (7ms,3,0), cancel, cancel_retransmissions}, <= 2 live; delivery judged by the reference HMAC; drain from every state; plus single-transaction schedules of an authenticated request to completion with a forged / unsigned / corrupted / local-key / genuine response at every step index x 2 poll patterns x 6 base configurations (all in thorough)", Some(crate::agent::schedule::forgery_sweep(ctx)))
@@ -177,6 +190,24 @@ pub fn c15(ctx: &Ctx) -> Report {
         s.set_remote = vec![1];
         s.drain = false;
         runs.push(SliceRun { slice: s, depth: ctx.tier.pick(8, 11) });
+        // "stays validated" under every other call of the API: credentials set and replaced (both
+        // kinds, both directions), reconfiguration, cancel, cancel_retransmissions, time-out
+        let mut s = base_slice("stays validated", "C15", tcp);
+        s.ids = 1;
+        s.max_live = 1;
+        s.max_sends = 2;
+        s.send = vec![(0, Seal::None, 0), (1, Seal::Sha1, 0)];
+        s.send_other = vec![(1, 2)];
+        s.poll_whens = vec![When::Wake, When::Far];
+        s.incoming = vec![(0, 0), (1, 2)];
+        s.resp = vec![(2, Auth::None, 0), (2, Auth::Sha1(1), 1), (2, Auth::Sha1(2), 1)];
+        s.set_remote = vec![1, 2, 3];
+        s.set_local = vec![0, 3];
+        s.configs = vec![0, 1];
+        s.cancel = true;
+        s.cancel_rtx = true;
+        s.drain = false;
+        runs.push(SliceRun { slice: s, depth: ctx.tier.pick(6, 8) });
     }
     let req = ["response delivered", "peer other than a destination validated by an incoming request"];
     run_slices(ctx, runs, &req, "all histories up to the depth over {send to P1/P2/P3, send indication, incoming request/indication from four sources, responses (valid, wrong key, unsigned, unknown id) from eight sources including non-destinations, addresses differing only in port or only in IP, the IPv4-mapped IPv6 form of a destination and one link-local address under two scope ids, set remote credentials, poll}; after every step is_validated_peer for all eight addresses vs the reference set", Some(crate::agent::scale::sweep("C15", ctx.tier == Tier::Thorough)))
@@ -193,7 +224,7 @@ pub fn c18(ctx: &Ctx) -> Report {
         s.resp = vec![(2, Auth::Sha1(2), 0)];
         s.set_local = vec![0];
         s.rebuild = vec![1];
-        runs.push(SliceRun { slice: s, depth: ctx.tier.pick(8, 11) });
+        runs.push(SliceRun { slice: s, depth: ctx.tier.pick(8, 10) });
     }
     let req = ["timed out", "two requests due at one poll, non-default order taken"];
     run_slices(ctx, runs, &req, "all histories up to the depth over {send with two payload shapes to P1/P2, send indication / success / error response, poll at wake / wake+700ms x all orders, configure (7ms,3,0) / (60s,8,60s), one dropped response}, UDP and TCP, drain from every state so that every retransmission of every schedule position is inspected: bytes = the harness' own serialisation, from = local, to = destination, transport, peer_address; plus single-transaction schedules to completion with a reconfiguration (five configurations), cancel_retransmissions or a dropped response at every step index", Some(crate::agent::schedule::transmission_sweep(ctx).merge(crate::agent::scale::sweep("C18", ctx.tier == Tier::Thorough))))
